@@ -37,6 +37,9 @@ type Solver struct {
 	cache     map[string]string
 	log       io.Writer
 	dead      bool
+	depth     int
+	scopeDefs []int
+	scopeDecl []string
 }
 
 func NewSolver(ctx *TermCtx, bin string, timeoutMs int) (*Solver, error) {
@@ -73,6 +76,8 @@ func (s *Solver) start() error {
 	s.defined = map[int]bool{}
 	s.declared = map[string]bool{}
 	s.dead = false
+	s.depth = 0
+	s.scopeDefs, s.scopeDecl = nil, nil
 	if !strings.Contains(s.bin, "cvc5") {
 		s.send(fmt.Sprintf("(set-option :timeout %d)", s.timeoutMs))
 		s.send("(set-option :model.completion true)")
@@ -128,11 +133,17 @@ func (s *Solver) define(t *Term) {
 			if !s.declared[x.name] {
 				s.send(fmt.Sprintf("(declare-const %s %s)", smtName(x.name), sortStr(x.w)))
 				s.declared[x.name] = true
+				if s.depth > 0 {
+					s.scopeDecl = append(s.scopeDecl, x.name)
+				}
 			}
 		} else {
 			s.send(fmt.Sprintf("(define-fun t%d () %s %s)", x.id, sortStr(x.w), x.body()))
 		}
 		s.defined[x.id] = true
+		if s.depth > 0 {
+			s.scopeDefs = append(s.scopeDefs, x.id)
+		}
 		stack = stack[:len(stack)-1]
 	}
 }
@@ -213,6 +224,7 @@ func (s *Solver) check(ts []*Term, keep bool) string {
 	}
 	start := time.Now()
 	s.send("(push 1)")
+	s.depth++
 	for _, t := range ts {
 		if t.IsTrue() {
 			continue
@@ -260,8 +272,8 @@ func (s *Solver) check(ts []*Term, keep bool) string {
 	default:
 		s.Stats.Errors++
 	}
-	if !(keep && res == "sat") && !s.dead {
-		s.send("(pop 1)")
+	if !(keep && res == "sat") {
+		s.Pop()
 	}
 	if !keep {
 		s.cache[key] = res
@@ -275,6 +287,16 @@ func (s *Solver) Check(ts []*Term) string { return s.check(ts, false) }
 func (s *Solver) CheckKeep(ts []*Term) string { return s.check(ts, true) }
 
 func (s *Solver) Pop() {
+	if s.depth > 0 {
+		s.depth--
+	}
+	for _, id := range s.scopeDefs {
+		delete(s.defined, id)
+	}
+	for _, n := range s.scopeDecl {
+		delete(s.declared, n)
+	}
+	s.scopeDefs, s.scopeDecl = nil, nil
 	if !s.dead {
 		s.send("(pop 1)")
 	}
